@@ -85,6 +85,9 @@ struct AbsVal {
   virtual bool get_allocation_sites(const var_t &ref, std::vector<crab::tag> &out) = 0;
   virtual bool get_tags(const var_t &rgn, const var_t &ref, std::vector<uint64_t> &out) = 0;
 
+  // intrinsic without outputs over variables (value_partition_start / _end)
+  virtual void intrinsic(const std::string &name, const std::vector<var_t> &inputs) = 0;
+
   virtual std::string str() const = 0;
   virtual std::string domain_name() const = 0;
 };
@@ -101,7 +104,8 @@ enum Caps : unsigned {
   CAP_SLOW = 256,      // expensive: fewer runs in quick tier
   CAP_CORE = 512,      // part of the quick tier
   CAP_FINITE = 1024,   // finite-height lattice (no widening needed)
-  CAP_BV = 2048        // machine-integer (wrap-around) semantics: BV profile only
+  CAP_BV = 2048,       // machine-integer (wrap-around) semantics: BV profile only
+  CAP_PARTITION = 4096 // value partitioning: partitions are started/ended by intrinsics
 };
 
 struct DomainInfo {
